@@ -20,7 +20,7 @@ EXPLANATION = (
     "left its loop. ParallelTempering.advance(n, swap_interval): AST-encoded (pyint), total steps == n and swap rounds == "
     "n // swap_interval for all n >= 0, swap_interval = 1..64."
 )
-BOUNDS = {"quick": "<=3 chains, <=6 (2 chains) / <=4 (3 chains) scheduling choice points per path (later switches follow the canonical order); advance: all n>=0, swap_interval 1..64",
+BOUNDS = {"quick": "pairings: 1..10 chains (tight), 1..7 (uniform); exchanges / scheduling: <=3 chains, <=6 (2 chains) / <=4 (3 chains) scheduling choice points per path (later switches follow the canonical order); advance: all n>=0, swap_interval 1..64",
           "thorough": "4-5 chains for pairing, 2 chains with 10 / 3 chains with 6 scheduling choice points"}
 ASSUMPTIONS = [
     "pipes are FIFO and reliable, Event.set is visible to later is_set, join returns when the worker function returns",
@@ -75,15 +75,17 @@ def _canonical(n, labels):
     return 0
 
 
-@unit("C08", quick=[dict(N=n) for n in (1, 2, 3)], thorough=[dict(N=4), dict(N=5)], max_paths=20000, cost=3)
-def pairings_are_disjoint(h, N):
+@unit("C08", quick=[dict(N=n, which=w) for n in (1, 2, 3, 4, 5, 6, 7) for w in ("tight_pairs", "uniform_pairs")] + [dict(N=n, which="tight_pairs") for n in (8, 9, 10)],
+      thorough=[dict(N=11, which="tight_pairs"), dict(N=12, which="tight_pairs"), dict(N=8, which="uniform_pairs")],
+      max_paths=400000, cost=3, explore_wall_s=3000)
+def pairings_are_disjoint(h, N, which):
     import inference.mcmc.parallel as par
     h.covers(par.ParallelTempering.tight_pairs, par.ParallelTempering.uniform_pairs)
     pt = par.ParallelTempering.__new__(par.ParallelTempering)
     pt.N_chains = N
     pt.rng = stubs.SymRng(h, "pair")
     h.patch(par, both=True, choice=lambda seq: seq[h.choice_int("random.choice", 0, len(seq) - 1)])
-    for name in ("tight_pairs", "uniform_pairs"):
+    for name in (which,):
         pairs = [tuple(int(v) for v in p) for p in getattr(pt, name)()]
         flat = [v for p in pairs for v in p]
         h.same(f"{name}: every chain in at most one pair", len(flat), len(set(flat)))
